@@ -1,5 +1,6 @@
 import CifModel.Lemmas.HeapHistRun
 import CifModel.Lemmas.ValueHist
+import CifModel.Lemmas.HistSpec
 import CifModel.Props.C19
 /-
   Property C19 — operation HISTORIES (group gM).
@@ -20,8 +21,9 @@ import CifModel.Props.C19
                          interpretation succeeds exactly when the pure one does and the results are related again — this
                          includes the aliased member cases (set_element_at / set_item on an EXISTING member with the source
                          inside the member replaced; clone onto a list element / an entry's inline value with any source).
-  Pure level: `C19_list_history` (any sequence of insert / set / remove / get on a list is the sequence on `List V`, index errors
-  included), `C19_nested_update_exact` (an update through a path changes exactly that sub-value).
+  Pure level: `C19_history_pure_is_spec` (the tied pure interpreter agrees with Spec/ValueSpec: lists are sequences, tables and
+  packets are maps, at any path, in any history, errors included), `C19_nested_update_exact` (an update through a path changes
+  exactly that sub-value).
 
   Fuel: the pointer-following heap functions (`cleanVal`, `cloneH`) take fuel; `stepH` computes it from the heap (`fuelOf h =
   3 · h.next + 9`), which covers every represented value because a footprint lists each block once and lies below the bump
@@ -108,6 +110,17 @@ theorem C19_history_get (ops : List HOp) (r : Ref) :
     obtain ⟨a, t, hvt, Ft, _, hres, hgt, hrep, htF, _⟩ := this
     exact ⟨t, hvt, Ft, hres, hgt, hrep, htF⟩
 
+/-- … and that block and everything it owns lie in the footprint of the reference's slot (no copy is handed out) -/
+theorem C19_history_get_owned (ops : List HOp) (r : Ref) (c : V) (hg : getP (runP ops PState.empty) r = some c) :
+    ∃ F, RepS [] (runH ops HState.empty) (runP ops PState.empty) F
+      ∧ ∃ t hvt Ft, resolveRef (runH ops HState.empty) r = some t ∧ getHV (runH ops HState.empty).h t = some hvt
+        ∧ Rep (runH ops HState.empty).h hvt c Ft ∧ t ∈ F r.root ∧ ∀ x, x ∈ Ft → x ∈ F r.root := by
+  obtain ⟨F, inv⟩ := C19_history_heap ops
+  have := inv.atRef r
+  rw [hg] at this
+  obtain ⟨a, t, hvt, Ft, _, hres, hgt, hrep, _, htG, hsub, _⟩ := this
+  exact ⟨F, inv, t, hvt, Ft, hres, hgt, hrep, htG, hsub⟩
+
 /-- the states the driver of family `valheap` prints its observations from (`traceH`) are the `runH` states of the prefixes -/
 theorem C19_history_trace (ops : List HOp) (s : HState) :
     traceH ops s = (List.range ops.length).map (fun n => runH (ops.take (n + 1)) s) := by
@@ -119,7 +132,10 @@ theorem C19_history_trace (ops : List HOp) (s : HState) :
 
 /-- **clone onto a member, any aliasing, heap level** — the target a list element or the inline value of a map entry (or a
     free-standing object), the source anywhere (inside the target, around it, elsewhere): the target object keeps its block
-    and afterwards represents the source's value on fresh blocks; its old blocks are released; nothing else changes -/
+    and afterwards represents the source's value on fresh blocks; its old blocks are released; nothing else changes: the
+    block keeps its kind (a `val` stays a `val`, an `entry` keeps its two keys), and the LIVE cells afterwards are exactly the
+    fresh footprint `Fn`, the target block, and the cells that were live before outside the target's old footprint — in
+    particular the scratch object the copy was built in is gone and nothing else allocated on the way stays live -/
 theorem C19_clone_onto_member_heap (h : Heap) (hw : h.WF) (t : Nat) (old : HVal) (vOld : V) (Ft : List Nat) (fuel : Nat)
     (hg : getHV h t = some old) (hval : IsValCell (h.cell t)) (hr : Rep h old vOld Ft) (htF : t ∉ Ft)
     (hF : ∀ x, x ∈ Ft → x < h.next) (hfuel : Model.Heap.need vOld ≤ fuel)
@@ -128,38 +144,60 @@ theorem C19_clone_onto_member_heap (h : Heap) (hw : h.WF) (t : Nat) (old : HVal)
     ∃ h' new Fn, cloneOntoAt fuel h t sa = some h' ∧ h'.WF ∧ getHV h' t = some new ∧ Rep h' new x Fn
       ∧ (∀ a, a ∈ Fn → h.next ≤ a ∧ a < h'.next)
       ∧ (∀ a, a < h.next → a ∉ Ft → a ≠ t → h'.cell a = h.cell a)
-      ∧ (∀ a, a ∈ Ft → h'.cell a = none) := by
+      ∧ (∀ a, a ∈ Ft → h'.cell a = none)
+      ∧ SameKind (h.cell t) (h'.cell t)
+      ∧ (∀ a, (h'.cell a).isSome = true ↔ (a ∈ Fn ∨ a = t ∨ ((h.cell a).isSome = true ∧ a ∉ Ft ∧ a ≠ t))) := by
   obtain ⟨h', new, Fn, hop, U, hfresh⟩ := cloneOntoAt_spec h hw t old vOld Ft fuel hg hval hr htF hF hfuel sa hs x Fs hsrc hrs hFs hfx
-  refine ⟨h', new, Fn, hop, U.wf, U.fields, U.rep, hfresh, U.frame, ?_⟩
-  intro a ha
-  have hne : a ≠ t := fun e => htF (e ▸ ha)
-  have hin : a ∉ Fn := fun hm => by have := (hfresh a hm).1; have := hF a ha; omega
-  exact U.dead a ha hin hne
+  refine ⟨h', new, Fn, hop, U.wf, U.fields, U.rep, hfresh, U.frame, ?_, U.kind, ?_⟩
+  · intro a ha
+    have hne : a ≠ t := fun e => htF (e ▸ ha)
+    have hin : a ∉ Fn := fun hm => by have := (hfresh a hm).1; have := hF a ha; omega
+    exact U.dead a ha hin hne
+  · intro a
+    constructor
+    · intro hl
+      rcases U.cov a hl with h1 | h1 | h1 | ⟨h1, h2⟩
+      · exact Or.inl h1
+      · exact Or.inr (Or.inl h1)
+      · cases h1
+      · by_cases hat : a = t
+        · exact Or.inr (Or.inl hat)
+        · refine Or.inr (Or.inr ⟨?_, h2, hat⟩)
+          rw [← U.frame a h1 h2 hat]; exact hl
+    · rintro (h1 | h1 | ⟨h1, h2, h3⟩)
+      · exact Model.Hist.Rep_live h' x new Fn U.rep a h1
+      · subst h1
+        have := U.fields
+        unfold getHV at this
+        cases hc : h'.cell a with
+        | none => rw [hc] at this; cases this
+        | some c => rfl
+      · rw [U.frame a (Model.Hist.isSome_lt hw h1) h2 h3]; exact h1
 
 /-! ## pure level: list histories, nested paths -/
 
 section Pure
 open Model.Value Spec.ValueSpec
 
-/-- **C19_list_history** — any sequence of insert / set / remove / get operations on a list value behaves as the same sequence
-    on a `List V` (Spec/ValueSpec: insertIdx / set / eraseIdx / `[i]?`), operation by operation: same result codes —
-    CIF_INVALID_INDEX exactly where the sequence operation is undefined, the list left as it was —, same elements handed out,
-    same final list -/
-theorem C19_list_history (ops : List ListOp) (vs : List V) :
-    runListM (.lst vs) ops = (.lst (runListS vs ops).1, (runListS vs ops).2) := by
-  induction ops generalizing vs with
-  | nil => rfl
-  | cons op ops ih =>
-    have hstep : listStepM (.lst vs) op = (.lst (listStepS vs op).1, (listStepS vs op).2) := by
-      obtain ⟨h1, h2, h3, h4, _⟩ := C19_list_is_sequence vs
-        (match op with | .ins i _ => i | .set i _ => i | .rem i => i | .get i => i)
-        (match op with | .ins _ x => x | .set _ x => x | _ => none)
-      cases op with
-      | ins i x => simp only [listStepM, listStepS, h1]; cases seqInsert vs i (x.getD .unk) <;> rfl
-      | set i x => simp only [listStepM, listStepS, h2]; cases seqSet vs i (x.getD .unk) <;> rfl
-      | rem i => simp only [listStepM, listStepS, h3]; cases seqRemove vs i <;> rfl
-      | get i => simp only [listStepM, listStepS, h4]; cases seqGet vs i <;> rfl
-    simp only [runListM, runListS, hstep, ih]
+/-- **C19_history_pure_is_spec** — the TIED pure interpreter (`stepP?` / `runP`: the function family val runs next to the library
+    and `C19_history_heap` relates the heap to) agrees with the independent specification Spec/ValueSpec, in every state any
+    operation sequence reaches, for the object at ANY path:
+    * `ListIsSeq`: insert / set / remove / get on a list are `seqInsert / seqSet / seqRemove / seqGet` on its `List V` (the value
+      entered is a copy of the source's value, the unknown value for NULL; an element set to itself is left alone; the removed
+      element goes to the caller's slot or is released; get is by reference), CIF_INVALID_INDEX exactly where the sequence
+      operation is undefined, nothing happening then;
+    * `TableIsMap`: set / remove / get on a table or packet are `AMap.set / erase / lookup` on the abstract map of its entries
+      keyed by the normalised key (new key: entered under the spelling given; existing key: first the new spelling, then the
+      value part on the member; remove — for a map without a key twice — hands the value out; a rejected key: nothing);
+    * `WrongKindNothing`: a list operation on a non-list, a map operation on a non-table: nothing happens.
+    With `C19_history_heap` this composes to: after any history the heap state represents what the SPECIFICATION says. -/
+theorem C19_history_pure_is_spec (ops : List HOp) :
+    ListIsSeq (runP ops PState.empty) ∧ TableIsMap (runP ops PState.empty) ∧ WrongKindNothing (runP ops PState.empty) :=
+  ⟨listIsSeq_any _, tableIsMap_any _, wrongKind_any _⟩
+
+/-- … the same for any pure state whatever (the clauses do not depend on how the state was reached) -/
+theorem C19_pure_is_spec_any (p : PState) : ListIsSeq p ∧ TableIsMap p ∧ WrongKindNothing p :=
+  ⟨listIsSeq_any p, tableIsMap_any p, wrongKind_any p⟩
 
 /-- **C19_nested_update_exact** — an operation applied to a member through a path (`update root p x`) changes exactly that
     sub-value: the member at `p` is `x` afterwards, and every member whose path parts ways with `p` is what it was -/
@@ -193,7 +231,6 @@ end Pure
 example : RepS [] HState.empty PState.empty (fun _ => []) := RepS.init
 example : ((runP [.bld 0 (.lst [.lst [.chr true (a!"x")]]), .lset ⟨.val 0, []⟩ 0 (some ⟨.val 0, [.idx 0, .idx 0]⟩)]
     PState.empty).get (.val 0)).isSome = true := by decide
-example : (Model.Value.runListS [.unk] [.ins 1 none, .rem 5, .get 0]).2.map (·.1) = [0, 73, 0] := by decide
 example : Model.Value.diverge [.idx 0, .idx 1] [.idx 0, .idx 2] := Or.inr ⟨rfl, Or.inl (by decide)⟩
 
 end CifModel
